@@ -807,6 +807,25 @@ func (c *ctx) phasePersistence(N int, dir string, g *vf.RNG) {
 				r.Violation("persist:root:"+v.name+":"+sizeClass(s), "reloaded tree has a different head", map[string]interface{}{"size": s, "got": hx(t2.Root()), "want": hx(ref.Root(s)), "leaves": c.leavesWitness(s)})
 				ok = false
 			}
+			if ok && s >= 2 {
+				// UnMarshal into an object that has ALREADY answered Root() (seeded C26/F: a cached head
+				// surviving the reload): load another recorded size into t2, then the original one back.
+				for _, o := range []int{s / 2, s} {
+					var uerr error
+					if p := vf.Catch(func() { uerr = t2.UnMarshal(marshalAt[o]) }); p != nil || uerr != nil {
+						r.Violation("persist:unmarshal-live", fmt.Sprintf("UnMarshal(Marshal()) into a live tree failed: %v %v", p, uerr), map[string]interface{}{"size": o, "marshal": vf.Hex(marshalAt[o])})
+						ok = false
+						break
+					}
+					r.Eval(fmt.Sprintf("%s/unmarshal-live/%d->%d", src, s, o))
+					r.Count("unmarshal_into_live_tree")
+					if t2.TreeSize() != uint32(o) || t2.Root() != H(ref.Root(o)) {
+						r.Violation("persist:root-after-unmarshal-into-live-tree:"+sizeClass(o), "a tree that had answered Root() reports a different head after UnMarshal of a recorded state", map[string]interface{}{"size_before": s, "size": o, "got": hx(t2.Root()), "want": hx(ref.Root(o)), "leaves": c.leavesWitness(o)})
+						ok = false
+						break
+					}
+				}
+			}
 			if ok && s >= 1 {
 				// same proofs as before the reload: for the reloaded size (all m) and a few older sizes
 				c.checkProofs(t2, ref, s, allM(s), false, g.Sub(uint64(s)), src)
